@@ -65,10 +65,20 @@ type dhStore struct {
 	// instead of its record (another provider's record, or an empty one);
 	// such a provider is left out of the full list too
 	wrong map[string]*model.ProviderInfo
+	// mount: the path below which the store's lookup endpoints live ("" for
+	// the root); the provider endpoints are at the root of the host
+	mount string
 }
 
 func (s *dhStore) ServeHTTP(w http.ResponseWriter, req *http.Request) {
 	p := strings.Trim(req.URL.Path, "/")
+	if s.mount != "" && p != "providers" && !strings.HasPrefix(p, "providers/") {
+		if !strings.HasPrefix(p, s.mount+"/") {
+			http.Error(w, "", http.StatusNotFound)
+			return
+		}
+		p = strings.TrimPrefix(p, s.mount+"/")
+	}
 	switch {
 	case strings.HasPrefix(p, "encrypted/multihash/"):
 		k := strings.TrimPrefix(p, "encrypted/multihash/")
@@ -379,6 +389,17 @@ func runC12(r *simkit.Run, c Cfg) {
 	// cache): results carry the provider ID alone
 	mdOnly := tp.Chance(1, 4, "metadataOnly")
 	ownClient := tp.Chance(1, 4, "ownClient")
+	// the store is mounted at the root of its host or below a path, and the
+	// URL the client is given says so, with or without a trailing slash
+	dhURL := "http://dhstore.example.org"
+	switch tp.Choose(6, "mount") {
+	case 0:
+		st.mount, dhURL = "dhstore", dhURL+"/dhstore"
+	case 1:
+		st.mount, dhURL = "v1/dh", dhURL+"/v1/dh/"
+	case 2:
+		dhURL += "/"
+	}
 	if ownClient {
 		defer func() { http.DefaultTransport = net.Transport() }()
 		r.Probe("client-given-by-the-application")
@@ -387,7 +408,7 @@ func runC12(r *simkit.Run, c Cfg) {
 	// the client preloads its provider cache over the network: build it on a
 	// task so that the scheduler can answer the request
 	r.Go("setup", func(t *simkit.Task) {
-		copts := []findclient.Option{findclient.WithDHStoreURL("http://dhstore.example.org"), findclient.WithPcachePreload(preload), findclient.WithMetadataOnly(mdOnly)}
+		copts := []findclient.Option{findclient.WithDHStoreURL(dhURL), findclient.WithPcachePreload(preload), findclient.WithMetadataOnly(mdOnly)}
 		if ownClient {
 			// the application's own HTTP client is the only way to the
 			// services (a proxy, an authenticating transport): whatever does
